@@ -1,6 +1,6 @@
 CONSTANTS
   Fields = {1, 2, 3, 4, 5, 6, 8}
-  Sizes = {0, 40, 80, 4096}
+  Sizes = {0, 36, 73, 4096}
   MaxOps = 5
   Defects = {}
 SPECIFICATION Spec
